@@ -56,6 +56,23 @@ def slot_tags(cfg):
         shutil.rmtree(d, ignore_errors=True)
 
 
+def key_slot(key):
+    """Redis Cluster key slot of a byte string (scenario construction only; the oracle is spec/KeySlot.tla)."""
+    if isinstance(key, str):
+        key = key.encode()
+    a = key.find(b"{")
+    if a >= 0:
+        b = key.find(b"}", a + 1)
+        if b > a + 1:
+            key = key[a + 1:b]
+    crc = 0
+    for ch in key:
+        crc ^= ch << 8
+        for _ in range(8):
+            crc = ((crc << 1) ^ 0x1021) & 0xFFFF if crc & 0x8000 else (crc << 1) & 0xFFFF
+    return crc % 16384
+
+
 def scratch():
     d = tempfile.mkdtemp(prefix="verif-run-")
     return d
